@@ -267,6 +267,26 @@ def release (sh : Shared) : Shared :=
 def finish (p : Policy) (sh : Shared) : Shared :=
   if !p.enabled || sh.rootDone then sh else release { sh with rootDone := true }
 
+/-- one call of the ledger's error-returning API (everything whose result
+steers the resolver's control flow). -/
+inductive ApiOp
+  | debit (k : Kind) (latch : Bool)                  -- `Debit` / `DebitBestEffort`
+  | check (k : Kind) (used : Nat) (latch : Bool)     -- `CheckLocal` / best-effort `checkLocal`
+  | reject (k : Kind) (latch : Bool)                 -- `Reject` / best-effort `reject`
+  | enf                                              -- `EnforcementError`
+deriving Repr, DecidableEq
+
+def apiStep (p : Policy) (sh : Shared) : ApiOp → Shared × Res
+  | .debit k latch => if k.isAggregate then debit p sh k latch else (sh, .ok)
+  | .check k used latch => if k.isAggregate then (sh, .ok) else checkLocal p sh k used latch
+  | .reject k latch => if k.isAggregate then (sh, .ok) else reject p sh k latch
+  | .enf => (sh, enforcementError p sh)
+
+/-- results of a sequential history of API calls. -/
+def apiRun (p : Policy) : Shared → List ApiOp → List Res
+  | _, [] => []
+  | sh, op :: t => let (sh', r) := apiStep p sh op; r :: apiRun p sh' t
+
 /-- EDE info-code of a limit error: `RecursionWorkLimitError.EDECode`
 (`ExtendedErrorCodeOther` = 0, `ExtendedErrorCodeDNSSECIndeterminate` = 5). -/
 def edeCode (k : Kind) : Nat := if k.isDNSSEC then 5 else 0
